@@ -323,12 +323,12 @@ Proof.
   - unfold ts_base_digits. cbn [all_digits forallb].
     repeat match goal with Hx : is_digit ?c = true |- _ => rewrite Hx; clear Hx end. reflexivity.
   - destruct n as [|n'].
-    + cbn [length] in Hl. destruct tail; [reflexivity | cbn [length] in Hl; lia].
+    + clear -Hl. cbn [length] in Hl. destruct tail; [reflexivity | cbn [length] in Hl; lia].
     + apply andb_true_iff in Hfrac as [Hdot HF].
-      destruct tail as [|t0 F]; [cbn [length] in Hl; lia|].
+      destruct tail as [|t0 F]; [exfalso; clear -Hl; cbn [length] in Hl; lia|].
       cbn [nth] in Hdot. cbn [skipn] in HF.
       apply Z.eqb_eq in Hdot. subst t0.
-      exists F. split; [reflexivity|]. split; [exact HF|]. cbn [length] in Hl. lia.
+      exists F. split; [reflexivity|]. split; [exact HF|]. clear -Hl. cbn [length] in Hl. lia.
 Qed.
 
 Lemma ts_num_base : forall y0 y1 y2 y3 m0 m1 d0 d1 h0 h1 mi0 mi1 s0 s1 tail,
@@ -345,17 +345,13 @@ Proof.
   repeat (apply andb_true_iff in H as [H ?]). repeat split; lia.
 Qed.
 
-Lemma gt_parse_finish : forall y mo d hh mi ss ns,
+Lemma gt_parse_finish : forall layout v y mo d hh mi ss ns,
+  gt_parse_loop layout v gt_fields0 = Ok (mk_gt_fields y mo d hh mi ss ns) ->
   ts_date_ok y mo d hh mi ss = true ->
-  (let f := mk_gt_fields y mo d hh mi ss ns in
-   let month := if gt_month f <? 0 then 1 else gt_month f in
-   let day := if gt_day f <? 0 then 1 else gt_day f in
-   if (day <? 1) || (gt_days_in month (gt_year f) <? day) then @Err (Z * Z) E_TIME_PARSE
-   else Ok (gt_unix_of_civil (gt_year f) month day (gt_hour f) (gt_min f) (gt_sec f), gt_nsec f))
-  = Ok (gt_unix_of_civil y mo d hh mi ss, ns).
+  gt_parse layout v = Ok (gt_unix_of_civil y mo d hh mi ss, ns).
 Proof.
-  intros y mo d hh mi ss ns H. apply ts_date_ok_fields in H as (_ & Hday & Hmo & Hd).
-  cbv zeta. cbn [gt_month gt_day gt_year gt_hour gt_min gt_sec gt_nsec].
+  intros layout v y mo d hh mi ss ns HL H. apply ts_date_ok_fields in H as (_ & Hday & Hmo & Hd).
+  unfold gt_parse. rewrite HL. cbn [bind gt_month gt_day gt_year gt_hour gt_min gt_sec gt_nsec].
   replace (mo <? 0) with false by lia. replace (d <? 0) with false by lia.
   rewrite Hday. reflexivity.
 Qed.
@@ -371,9 +367,9 @@ Proof.
   destruct (ts_num_base y0 y1 y2 y3 m0 m1 d0 d1 h0 h1 mi0 mi1 s0 s1 []) as (E1 & E2 & E3 & E4 & E5 & E6).
   unfold ts_value. change (ts_frac_len 1) with (Some 0%nat). cbv iota.
   rewrite E1, E2, E3, E4, E5, E6 in *.
-  unfold gt_parse. rewrite (parse_loop_seconds_core _ _ _ _ _ _ _ _ _ _ _ _ _ _ Hdig).
-  destruct (ts_date_ok_fields _ _ _ _ _ _ Hd) as (Hf & _). rewrite Hf. cbn [bind].
-  rewrite (gt_parse_finish _ _ _ _ _ _ 0 Hd).
+  pose proof (parse_loop_seconds_core _ _ _ _ _ _ _ _ _ _ _ _ _ _ Hdig) as HL.
+  destruct (ts_date_ok_fields _ _ _ _ _ _ Hd) as (Hf & _). rewrite Hf in HL.
+  rewrite (gt_parse_finish _ _ _ _ _ _ _ _ _ HL Hd).
   cbn [skipn ts_base dec_value]. rewrite Z.mul_0_l. reflexivity.
 Qed.
 
@@ -389,9 +385,9 @@ Proof.
   destruct (ts_num_base y0 y1 y2 y3 m0 m1 d0 d1 h0 h1 mi0 mi1 s0 s1 (gt_DOT :: F)) as (E1 & E2 & E3 & E4 & E5 & E6).
   unfold ts_value. rewrite Hp.
   rewrite E1, E2, E3, E4, E5, E6 in *.
-  unfold gt_parse. rewrite (parse_loop_frac_core (S n') _ _ _ _ _ _ _ _ _ _ _ _ _ _ F Hdig HF HlF Hn).
-  destruct (ts_date_ok_fields _ _ _ _ _ _ Hd) as (Hf & _). rewrite Hf. cbn [bind].
-  rewrite (gt_parse_finish _ _ _ _ _ _ _ Hd).
+  pose proof (parse_loop_frac_core (S n') _ _ _ _ _ _ _ _ _ _ _ _ _ _ F Hdig HF HlF Hn) as HL.
+  destruct (ts_date_ok_fields _ _ _ _ _ _ Hd) as (Hf & _). rewrite Hf in HL.
+  rewrite (gt_parse_finish _ _ _ _ _ _ _ _ _ HL Hd).
   cbn [skipn ts_base]. reflexivity.
 Qed.
 
@@ -420,23 +416,682 @@ Proof.
   destruct (p =? 3) eqn:E3; [injection H as <-; right; right; right; lia|]. discriminate.
 Qed.
 
+Lemma ts_grammar_byte18 : forall p s, ts_grammarb p s = true ->
+  Nat.ltb 18 (length s) && negb (is_digit (nth 18 s 0)) = false.
+Proof.
+  intros p s Hg. destruct (Nat.ltb 18 (length s)) eqn:El; [|reflexivity]. apply Nat.ltb_lt in El.
+  cbn [andb]. apply negb_false_iff.
+  unfold ts_grammarb in Hg. destruct (ts_frac_len p) as [n|] eqn:Hp; [|discriminate].
+  apply andb_true_iff in Hg as [Hs _].
+  destruct (ts_shape_base n s Hs)
+    as (y0 & y1 & y2 & y3 & m0 & m1 & d0 & d1 & h0 & h1 & mi0 & mi1 & s0 & s1 & tail & -> & _ & Ht).
+  unfold ts_base in *. cbn [nth length] in *.
+  destruct n.
+  - subst tail. cbn [length] in El. lia.
+  - destruct Ht as (F & -> & HF & HlF). cbn [nth].
+    destruct F as [|f0 F']; [cbn [length] in El; lia|]. cbn [nth].
+    cbn [all_digits forallb] in HF. apply andb_true_iff in HF as [Hf0 _]. exact Hf0.
+Qed.
+
 (* every text of the grammar is accepted, with the precision its length denotes and the instant it denotes *)
 Lemma timestamp_read_grammar : forall p s, ts_grammarb p s = true -> timestamp_read s = Ok (ts_value p s, p).
 Proof.
-  intros p s H.
+  intros p s H. pose proof (ts_grammar_byte18 p s H) as H18.
   destruct (ts_frac_len p) as [n|] eqn:Hp; [|unfold ts_grammarb in H; rewrite Hp in H; discriminate].
   pose proof (ts_grammar_length p n s Hp H) as Hl.
-  unfold timestamp_read.
+  unfold timestamp_read, utc_timestamp_millis_format, utc_timestamp_seconds_format,
+    utc_timestamp_micros_format, utc_timestamp_nanos_format.
   destruct (ts_frac_len_cases p n Hp) as [[-> ->] | [[-> ->] | [[-> ->] | [-> ->]]]].
-  - rewrite (ts_grammar_dot 0 3 s Hp ltac:(lia) H). rewrite Z.eqb_refl, andb_false_r.
+  - rewrite (ts_grammar_dot 0 3 s Hp ltac:(lia) H). rewrite Z.eqb_refl, andb_false_r. rewrite H18.
     rewrite Hl. cbn [Nat.eqb Nat.add].
     rewrite (gt_parse_frac_grammar 0 3 s Hp ltac:(lia) H). reflexivity.
-  - rewrite Hl. cbn [Nat.ltb Nat.leb andb Nat.eqb].
+  - rewrite H18. rewrite Hl. cbn [Nat.ltb Nat.leb andb Nat.eqb].
     rewrite (gt_parse_seconds_grammar s H). reflexivity.
-  - rewrite (ts_grammar_dot 2 6 s Hp ltac:(lia) H). rewrite Z.eqb_refl, andb_false_r.
+  - rewrite (ts_grammar_dot 2 6 s Hp ltac:(lia) H). rewrite Z.eqb_refl, andb_false_r. rewrite H18.
     rewrite Hl. cbn [Nat.eqb Nat.add].
     rewrite (gt_parse_frac_grammar 2 6 s Hp ltac:(lia) H). reflexivity.
-  - rewrite (ts_grammar_dot 3 9 s Hp ltac:(lia) H). rewrite Z.eqb_refl, andb_false_r.
+  - rewrite (ts_grammar_dot 3 9 s Hp ltac:(lia) H). rewrite Z.eqb_refl, andb_false_r. rewrite H18.
     rewrite Hl. cbn [Nat.eqb Nat.add].
     rewrite (gt_parse_frac_grammar 3 9 s Hp ltac:(lia) H). reflexivity.
 Qed.
+
+(* ================= D. what is accepted has the shape of the grammar ================= *)
+
+Lemma digit_not_sign : forall c, is_digit c = true -> c <> gt_PLUS /\ c <> MINUS.
+Proof. intros c H. unfold is_digit, CH0, CH9, gt_PLUS, MINUS in *. lia. Qed.
+
+Lemma std_year_inv : forall nif v f v' f', gt_parse_std GtLongYear nif v f = Ok (v', f') ->
+  exists y0 y1 y2 y3, v = y0 :: y1 :: y2 :: y3 :: v' /\ all_digits [y0; y1; y2; y3] = true.
+Proof.
+  intros nif v f v' f' H. cbn [gt_parse_std] in H.
+  destruct (Nat.ltb (length v) 4 || negb (gt_is_digit_at v 0)) eqn:E; [discriminate|].
+  apply orb_false_iff in E as [E1 E2]. apply Nat.ltb_ge in E1.
+  destruct v as [|y0 [|y1 [|y2 [|y3 r]]]]; try (cbn [length] in E1; lia).
+  cbn [firstn skipn] in H.
+  destruct (gt_atoi [y0; y1; y2; y3]) as [y|] eqn:Ea; [|discriminate]. injection H as <- <-.
+  exists y0, y1, y2, y3. split; [reflexivity|].
+  cbn [gt_is_digit_at nth_error] in E2. apply negb_false_iff in E2.
+  destruct (digit_not_sign y0 E2) as [Hp Hm].
+  apply gt_atoi_inv in Ea as [[Hd _] | [(r' & E & _) | (r' & E & _)]]; [exact Hd | |]; congruence.
+Qed.
+
+Lemma std_fixed_inv : forall std nif v f v' f',
+  std = GtZeroMonth \/ std = GtZeroDay \/ std = GtZeroMinute ->
+  gt_parse_std std nif v f = Ok (v', f') ->
+  exists a b, v = a :: b :: v' /\ is_digit a = true /\ is_digit b = true.
+Proof.
+  intros std nif v f v' f' Hs H.
+  destruct Hs as [-> | [-> | ->]]; cbn [gt_parse_std] in H;
+    destruct (gt_getnum v true) as [[x r]|] eqn:E; try discriminate.
+  - destruct ((x <=? 0) || (12 <? x)); [discriminate|]. injection H as <- <-.
+    apply gt_getnum_fixed_inv in E as (a & b & -> & Ha & Hb & _). exists a, b. auto.
+  - injection H as <- <-.
+    apply gt_getnum_fixed_inv in E as (a & b & -> & Ha & Hb & _). exists a, b. auto.
+  - destruct ((x <? 0) || (60 <=? x)); [discriminate|]. injection H as <- <-.
+    apply gt_getnum_fixed_inv in E as (a & b & -> & Ha & Hb & _). exists a, b. auto.
+Qed.
+
+Lemma std_hour_inv : forall nif v f v' f', gt_parse_std GtHour nif v f = Ok (v', f') ->
+  exists hh, v = hh ++ v' /\ all_digits hh = true /\ (length hh = 2%nat \/ length hh = 1%nat).
+Proof.
+  intros nif v f v' f' H. cbn [gt_parse_std] in H.
+  destruct (gt_getnum v false) as [[x r]|] eqn:E; [|discriminate].
+  destruct ((x <? 0) || (24 <=? x)); [discriminate|]. injection H as <- <-.
+  apply gt_getnum_free_inv in E as [(a & b & -> & Ha & Hb & _) | (a & -> & Ha & _)].
+  - exists [a; b]. cbn [app all_digits forallb length]. rewrite Ha, Hb. auto.
+  - exists [a]. cbn [app all_digits forallb length]. rewrite Ha. auto.
+Qed.
+
+Lemma std_sec_inv : forall nif v f v' f', gt_parse_std GtZeroSecond nif v f = Ok (v', f') ->
+  exists a b v1, v = a :: b :: v1 /\ is_digit a = true /\ is_digit b = true
+    /\ ((nif = true \/ (length v1 < 2)%nat) -> v' = v1).
+Proof.
+  intros nif v f v' f' H. cbn [gt_parse_std] in H.
+  destruct (gt_getnum v true) as [[x r]|] eqn:E; [|discriminate].
+  destruct ((x <? 0) || (60 <=? x)); [discriminate|].
+  apply gt_getnum_fixed_inv in E as (a & b & -> & Ha & Hb & _).
+  exists a, b, r. split; [reflexivity|]. split; [exact Ha|]. split; [exact Hb|].
+  intros Hc.
+  destruct (Nat.leb 2 (length r) && gt_comma_or_period (nth 0 r 0) && gt_is_digit_at r 1 && negb nif) eqn:Esp.
+  - exfalso. repeat (apply andb_true_iff in Esp as [Esp ?]). apply Nat.leb_le in Esp.
+    destruct Hc as [-> | Hc]; [discriminate | lia].
+  - injection H as <- _. reflexivity.
+Qed.
+
+Lemma std_frac_inv : forall n nif v f v' f', (1 <= n <= 9)%nat ->
+  gt_parse_std (GtFracSecond0 n) nif v f = Ok (v', f') ->
+  (S n <= length v)%nat /\ v' = skipn (S n) v
+  /\ exists q, gt_atoi (skipn 1 (firstn (S n) v)) = Some q /\ 0 <= q.
+Proof.
+  intros n nif v f v' f' Hn H. cbn [gt_parse_std] in H.
+  destruct (Nat.ltb (length v) (S n)) eqn:El; [discriminate|]. apply Nat.ltb_ge in El.
+  destruct (gt_parse_nanoseconds v (S n)) as [[ns|e]| | |] eqn:En; try discriminate.
+  injection H as <- _. split; [exact El|]. split; [reflexivity|].
+  unfold gt_parse_nanoseconds in En. destruct v as [|v0 r]; [discriminate|].
+  destruct (negb (gt_comma_or_period v0)); [discriminate|].
+  assert (Hmin : Nat.min (S n) 10 = S n) by lia. rewrite Hmin in En.
+  destruct (Nat.ltb (length (v0 :: r)) (S n)); [discriminate|].
+  destruct (gt_atoi (skipn 1 (firstn (S n) (v0 :: r)))) as [q|] eqn:Ea; [|discriminate].
+  destruct (q <? 0) eqn:Eq; [discriminate|]. exists q. split; [reflexivity | lia].
+Qed.
+
+Definition gt_layout_head : gt_layout :=
+  [([], GtLongYear); ([], GtZeroMonth); ([], GtZeroDay); ([MINUS], GtHour); ([gt_COLON], GtZeroMinute)].
+
+Lemma gt_skip_one_inv : forall v c r, gt_skip v [c] = Some r -> v = c :: r.
+Proof.
+  intros v c r H. destruct v as [|x t]; cbn [gt_skip] in H; [discriminate|].
+  destruct (x =? c) eqn:E; [|discriminate]. injection H as <-. f_equal. lia.
+Qed.
+
+Lemma gt_parse_loop_cons : forall pre std rest v f,
+  gt_parse_loop ((pre, std) :: rest) v f =
+  match gt_skip v pre with
+  | None => Err E_TIME_PARSE
+  | Some v1 =>
+      bind (gt_parse_std std (match rest with c :: _ => gt_is_frac c | [] => false end) v1 f)
+           (fun x => gt_parse_loop rest (fst x) (snd x))
+  end.
+Proof.
+  intros. cbn [gt_parse_loop]. destruct (gt_skip v pre) as [v1|]; [|reflexivity].
+  destruct (gt_parse_std std _ v1 f) as [[v' f']| | |]; reflexivity.
+Qed.
+
+(* the first five chunks: date, '-', hour (one or two digits), ':', minute *)
+Lemma parse_loop_head_inv : forall c rest v fin,
+  gt_parse_loop (gt_layout_head ++ c :: rest) v gt_fields0 = Ok fin ->
+  exists y0 y1 y2 y3 m0 m1 d0 d1 hh mi0 mi1 vt f5,
+    v = y0 :: y1 :: y2 :: y3 :: m0 :: m1 :: d0 :: d1 :: 45 :: hh ++ 58 :: mi0 :: mi1 :: vt
+    /\ all_digits [y0; y1; y2; y3; m0; m1; d0; d1] = true
+    /\ all_digits hh = true /\ (length hh = 2%nat \/ length hh = 1%nat)
+    /\ is_digit mi0 = true /\ is_digit mi1 = true
+    /\ gt_parse_loop (c :: rest) vt f5 = Ok fin.
+Proof.
+  intros c rest v fin H. unfold gt_layout_head in H. cbn [app] in H.
+  rewrite gt_parse_loop_cons in H. cbn [gt_skip] in H.
+  destruct (gt_parse_std GtLongYear _ v gt_fields0) as [[v1 f1]| | |] eqn:E1; try discriminate.
+  cbn [bind fst snd] in H. apply std_year_inv in E1 as (y0 & y1 & y2 & y3 & -> & Hy).
+  rewrite gt_parse_loop_cons in H. cbn [gt_skip] in H.
+  destruct (gt_parse_std GtZeroMonth _ v1 f1) as [[v2 f2]| | |] eqn:E2; try discriminate.
+  cbn [bind fst snd] in H. apply std_fixed_inv in E2 as (m0 & m1 & -> & Hm0 & Hm1); [|auto].
+  rewrite gt_parse_loop_cons in H. cbn [gt_skip] in H.
+  destruct (gt_parse_std GtZeroDay _ v2 f2) as [[v3 f3]| | |] eqn:E3; try discriminate.
+  cbn [bind fst snd] in H. apply std_fixed_inv in E3 as (d0 & d1 & -> & Hd0 & Hd1); [|auto].
+  rewrite gt_parse_loop_cons in H.
+  destruct (gt_skip v3 [MINUS]) as [v3'|] eqn:Es1; [|discriminate].
+  apply gt_skip_one_inv in Es1 as ->.
+  destruct (gt_parse_std GtHour _ v3' f3) as [[v4 f4]| | |] eqn:E4; try discriminate.
+  cbn [bind fst snd] in H. apply std_hour_inv in E4 as (hh & -> & Hhh & Hlen).
+  rewrite gt_parse_loop_cons in H.
+  destruct (gt_skip v4 [gt_COLON]) as [v4'|] eqn:Es2; [|discriminate].
+  apply gt_skip_one_inv in Es2 as ->.
+  destruct (gt_parse_std GtZeroMinute _ v4' f4) as [[v5 f5]| | |] eqn:E5; try discriminate.
+  cbn [bind fst snd] in H. apply std_fixed_inv in E5 as (mi0 & mi1 & -> & Hmi0 & Hmi1); [|auto].
+  exists y0, y1, y2, y3, m0, m1, d0, d1, hh, mi0, mi1, v5, f5.
+  split; [reflexivity|]. split.
+  - cbn [all_digits forallb] in *. rewrite Hm0, Hm1, Hd0, Hd1.
+    repeat (apply andb_true_iff in Hy as [? Hy]).
+    repeat match goal with Hx : is_digit ?c = true |- _ => rewrite Hx end. reflexivity.
+  - repeat split; try assumption.
+Qed.
+
+Lemma hh_two : forall hh : bytes, length hh = 2%nat -> exists h0 h1, hh = [h0; h1].
+Proof. intros [|a [|b [|c r]]] H; try discriminate. eauto. Qed.
+
+Lemma base_digits_of : forall y0 y1 y2 y3 m0 m1 d0 d1 h0 h1 mi0 mi1 s0 s1,
+  all_digits [y0; y1; y2; y3; m0; m1; d0; d1] = true -> all_digits [h0; h1] = true ->
+  is_digit mi0 = true -> is_digit mi1 = true -> is_digit s0 = true -> is_digit s1 = true ->
+  ts_base_digits y0 y1 y2 y3 m0 m1 d0 d1 h0 h1 mi0 mi1 s0 s1 = true.
+Proof.
+  intros. unfold ts_base_digits. cbn [all_digits forallb] in *.
+  repeat match goal with Hx : andb _ _ = true |- _ => apply andb_true_iff in Hx; destruct Hx as [? ?] end.
+  repeat match goal with Hx : is_digit ?c = true |- _ => rewrite Hx; clear Hx end. reflexivity.
+Qed.
+
+Lemma parse_loop_seconds_inv : forall v fin,
+  gt_parse_loop gt_layout_seconds v gt_fields0 = Ok fin -> length v = 17%nat ->
+  exists y0 y1 y2 y3 m0 m1 d0 d1 h0 h1 mi0 mi1 s0 s1,
+    v = ts_base y0 y1 y2 y3 m0 m1 d0 d1 h0 h1 mi0 mi1 s0 s1 []
+    /\ ts_base_digits y0 y1 y2 y3 m0 m1 d0 d1 h0 h1 mi0 mi1 s0 s1 = true.
+Proof.
+  intros v fin H Hl.
+  change gt_layout_seconds with (gt_layout_head ++ [([gt_COLON], GtZeroSecond)]) in H.
+  apply parse_loop_head_inv in H
+    as (y0 & y1 & y2 & y3 & m0 & m1 & d0 & d1 & hh & mi0 & mi1 & vt & f5 & -> & Hd8 & Hhh & Hlen & Hmi0 & Hmi1 & H).
+  rewrite gt_parse_loop_cons in H.
+  destruct (gt_skip vt [gt_COLON]) as [vt'|] eqn:Es; [|discriminate].
+  apply gt_skip_one_inv in Es as ->.
+  destruct (gt_parse_std GtZeroSecond false vt' f5) as [[v6 f6]| | |] eqn:E6; try discriminate.
+  cbn [bind fst snd gt_parse_loop] in H. destruct v6; [|discriminate].
+  apply std_sec_inv in E6 as (s0 & s1 & v1 & -> & Hs0 & Hs1 & Hv1).
+  cbn [length] in Hl. rewrite app_length in Hl. cbn [length] in Hl.
+  assert (Hv : v1 = []).
+  { symmetry. apply Hv1. right. lia. }
+  subst v1. cbn [length] in Hl.
+  destruct Hlen as [Hlen | Hlen]; [|lia].
+  destruct (hh_two hh Hlen) as (h0 & h1 & ->).
+  exists y0, y1, y2, y3, m0, m1, d0, d1, h0, h1, mi0, mi1, s0, s1.
+  split; [reflexivity|]. apply base_digits_of; assumption.
+Qed.
+
+Lemma parse_loop_frac_inv : forall n v fin, (1 <= n <= 9)%nat ->
+  gt_parse_loop (gt_layout_frac n) v gt_fields0 = Ok fin -> length v = (18 + n)%nat ->
+  nth 17 v 0 = gt_DOT -> nth 18 v 0 <> gt_PLUS -> nth 18 v 0 <> MINUS ->
+  exists y0 y1 y2 y3 m0 m1 d0 d1 h0 h1 mi0 mi1 s0 s1 F,
+    v = ts_base y0 y1 y2 y3 m0 m1 d0 d1 h0 h1 mi0 mi1 s0 s1 (gt_DOT :: F)
+    /\ ts_base_digits y0 y1 y2 y3 m0 m1 d0 d1 h0 h1 mi0 mi1 s0 s1 = true
+    /\ all_digits F = true /\ length F = n.
+Proof.
+  intros n v fin Hn H Hl Hdot Hplus Hminus.
+  change (gt_layout_frac n) with (gt_layout_head ++ [([gt_COLON], GtZeroSecond); ([], GtFracSecond0 n)]) in H.
+  apply parse_loop_head_inv in H
+    as (y0 & y1 & y2 & y3 & m0 & m1 & d0 & d1 & hh & mi0 & mi1 & vt & f5 & -> & Hd8 & Hhh & Hlen & Hmi0 & Hmi1 & H).
+  rewrite gt_parse_loop_cons in H. cbn [gt_is_frac snd] in H.
+  destruct (gt_skip vt [gt_COLON]) as [vt'|] eqn:Es; [|discriminate].
+  apply gt_skip_one_inv in Es as ->.
+  destruct (gt_parse_std GtZeroSecond true vt' f5) as [[v6 f6]| | |] eqn:E6; try discriminate.
+  cbn [bind fst snd] in H.
+  apply std_sec_inv in E6 as (s0 & s1 & v1 & -> & Hs0 & Hs1 & Hv1).
+  rewrite (Hv1 (or_introl eq_refl)) in H. clear Hv1.
+  rewrite gt_parse_loop_cons in H. cbn [gt_skip] in H.
+  destruct (gt_parse_std (GtFracSecond0 n) false v1 f6) as [[v7 f7]| | |] eqn:E7; try discriminate.
+  cbn [bind fst snd gt_parse_loop] in H. destruct v7; [|discriminate].
+  apply (std_frac_inv n _ _ _ _ _ Hn) in E7 as (Hlen1 & Hskip & q & Hq & Hq0).
+  cbn [length] in Hl. rewrite app_length in Hl. cbn [length] in Hl.
+  assert (Hl1 : (length v1 <= S n)%nat).
+  { destruct (Nat.le_gt_cases (length v1) (S n)) as [Hle|Hgt]; [exact Hle|].
+    exfalso. assert (Hs : length (skipn (S n) v1) = (length v1 - S n)%nat) by apply skipn_length.
+    rewrite <- Hskip in Hs. cbn [length] in Hs. lia. }
+  destruct Hlen as [Hlen | Hlen]; [|lia].
+  destruct (hh_two hh Hlen) as (h0 & h1 & ->).
+  cbn [app nth] in Hdot, Hplus, Hminus.
+  destruct v1 as [|sep F]; [cbn [length] in Hlen1; lia|].
+  cbn [nth] in Hdot, Hplus, Hminus. subst sep.
+  cbn [length] in Hlen1, Hl1.
+  assert (HlF : length F = n) by lia.
+  replace (firstn (S n) (gt_DOT :: F)) with (gt_DOT :: F) in Hq
+    by (cbn [firstn]; rewrite <- HlF, firstn_all; reflexivity).
+  cbn [skipn] in Hq.
+  assert (HF : all_digits F = true).
+  { apply gt_atoi_inv in Hq as [[Hd _] | [(r' & E & _) | (r' & E & _)]]; [exact Hd | |].
+    - subst F. cbn [nth] in Hplus. congruence.
+    - subst F. cbn [nth] in Hminus. congruence. }
+  exists y0, y1, y2, y3, m0, m1, d0, d1, h0, h1, mi0, mi1, s0, s1, F.
+  split; [reflexivity|]. split; [apply base_digits_of; assumption|]. split; assumption.
+Qed.
+
+Lemma ts_shape_of_base : forall n y0 y1 y2 y3 m0 m1 d0 d1 h0 h1 mi0 mi1 s0 s1 tail,
+  ts_base_digits y0 y1 y2 y3 m0 m1 d0 d1 h0 h1 mi0 mi1 s0 s1 = true ->
+  match n with
+  | O => tail = []
+  | _ => exists F, tail = gt_DOT :: F /\ all_digits F = true /\ length F = n
+  end ->
+  ts_shape n (ts_base y0 y1 y2 y3 m0 m1 d0 d1 h0 h1 mi0 mi1 s0 s1 tail) = true.
+Proof.
+  intros n y0 y1 y2 y3 m0 m1 d0 d1 h0 h1 mi0 mi1 s0 s1 tail Hd Ht.
+  apply ts_base_digits_split in Hd as (Hy & Hm0 & Hm1 & Hd0 & Hd1 & Hh0 & Hh1 & Hmi0 & Hmi1 & Hs0 & Hs1).
+  cbn [all_digits forallb] in Hy.
+  repeat (apply andb_true_iff in Hy as [? Hy]).
+  unfold ts_shape, ts_sub, ts_base.
+  cbn [firstn skipn nth all_digits forallb].
+  repeat match goal with Hx : is_digit ?c = true |- _ => rewrite Hx; clear Hx end.
+  change (45 =? 45) with true. change (58 =? 58) with true. cbn [andb].
+  destruct n as [|n'].
+  - subst tail. reflexivity.
+  - destruct Ht as (F & -> & HF & HlF). cbn [length nth skipn]. rewrite HlF.
+    change (gt_DOT =? 46) with true. unfold all_digits in HF. rewrite HF. cbn [andb Nat.add].
+    rewrite Nat.eqb_refl. reflexivity.
+Qed.
+
+Lemma gt_parse_loop_date_ok : forall layout v y mo d hh mi ss ns t,
+  gt_parse_loop layout v gt_fields0 = Ok (mk_gt_fields y mo d hh mi ss ns) ->
+  ts_fields_ok mo hh mi ss = true -> 0 <= d ->
+  gt_parse layout v = Ok t -> ts_date_ok y mo d hh mi ss = true.
+Proof.
+  intros layout v y mo d hh mi ss ns t HL Hf Hd H.
+  unfold gt_parse in H. rewrite HL in H.
+  cbn [bind gt_month gt_day gt_year gt_hour gt_min gt_sec gt_nsec] in H.
+  unfold ts_fields_ok in Hf.
+  apply andb_true_iff in Hf as [Hf Hss]. apply andb_true_iff in Hf as [Hf Hmi].
+  apply andb_true_iff in Hf as [Hf Hhh]. apply andb_true_iff in Hf as [Hmo1 Hmo2].
+  replace (mo <? 0) with false in H by lia. replace (d <? 0) with false in H by lia.
+  destruct ((d <? 1) || (gt_days_in mo y <? d)) eqn:Eday; [discriminate|].
+  unfold ts_date_ok. rewrite Hmo1, Hmo2, Hhh, Hmi, Hss.
+  replace (1 <=? d) with true by lia. replace (d <=? gt_days_in mo y) with true by lia. reflexivity.
+Qed.
+
+Lemma gt_parse_seconds_sound : forall s t, gt_parse gt_layout_seconds s = Ok t -> length s = 17%nat ->
+  ts_grammarb 1 s = true.
+Proof.
+  intros s t H Hl.
+  destruct (gt_parse_loop gt_layout_seconds s gt_fields0) as [fin| | |] eqn:EL;
+    try (unfold gt_parse in H; rewrite EL in H; discriminate).
+  destruct (parse_loop_seconds_inv s fin EL Hl)
+    as (y0 & y1 & y2 & y3 & m0 & m1 & d0 & d1 & h0 & h1 & mi0 & mi1 & s0 & s1 & -> & Hdig).
+  pose proof (parse_loop_seconds_core _ _ _ _ _ _ _ _ _ _ _ _ _ _ Hdig) as HL.
+  destruct (ts_fields_ok _ _ _ _) eqn:Hf; [|rewrite HL in EL; discriminate].
+  unfold ts_grammarb. change (ts_frac_len 1) with (Some 0%nat). cbv iota.
+  rewrite (ts_shape_of_base 0 _ _ _ _ _ _ _ _ _ _ _ _ _ _ [] Hdig eq_refl). cbn [andb].
+  destruct (ts_num_base y0 y1 y2 y3 m0 m1 d0 d1 h0 h1 mi0 mi1 s0 s1 []) as (E1 & E2 & E3 & E4 & E5 & E6).
+  rewrite E1, E2, E3, E4, E5, E6.
+  apply ts_base_digits_split in Hdig as (_ & _ & _ & Hd0 & Hd1 & _).
+  pose proof (two_digit_nonneg d0 d1 Hd0 Hd1) as Hd.
+  eapply gt_parse_loop_date_ok; [exact HL | exact Hf | lia | exact H].
+Qed.
+
+Lemma gt_parse_frac_sound : forall p n s t, ts_frac_len p = Some n -> (1 <= n <= 9)%nat ->
+  gt_parse (gt_layout_frac n) s = Ok t -> length s = (18 + n)%nat ->
+  nth 17 s 0 = gt_DOT -> nth 18 s 0 <> gt_PLUS -> nth 18 s 0 <> MINUS ->
+  ts_grammarb p s = true.
+Proof.
+  intros p n s t Hp Hn H Hl Hdot Hplus Hminus.
+  destruct (gt_parse_loop (gt_layout_frac n) s gt_fields0) as [fin| | |] eqn:EL;
+    try (unfold gt_parse in H; rewrite EL in H; discriminate).
+  destruct (parse_loop_frac_inv n s fin Hn EL Hl Hdot Hplus Hminus)
+    as (y0 & y1 & y2 & y3 & m0 & m1 & d0 & d1 & h0 & h1 & mi0 & mi1 & s0 & s1 & F & -> & Hdig & HF & HlF).
+  pose proof (parse_loop_frac_core n _ _ _ _ _ _ _ _ _ _ _ _ _ _ F Hdig HF HlF Hn) as HL.
+  destruct (ts_fields_ok _ _ _ _) eqn:Hf; [|rewrite HL in EL; discriminate].
+  unfold ts_grammarb. rewrite Hp.
+  rewrite (ts_shape_of_base n _ _ _ _ _ _ _ _ _ _ _ _ _ _ (gt_DOT :: F) Hdig).
+  2:{ destruct n; [lia|]. exists F. auto. }
+  cbn [andb].
+  destruct (ts_num_base y0 y1 y2 y3 m0 m1 d0 d1 h0 h1 mi0 mi1 s0 s1 (gt_DOT :: F)) as (E1 & E2 & E3 & E4 & E5 & E6).
+  rewrite E1, E2, E3, E4, E5, E6.
+  apply ts_base_digits_split in Hdig as (_ & _ & _ & Hd0 & Hd1 & _).
+  pose proof (two_digit_nonneg d0 d1 Hd0 Hd1) as Hd.
+  eapply gt_parse_loop_date_ok; [exact HL | exact Hf | lia | exact H].
+Qed.
+
+(* the fraction does not start with a sign: every byte after the point is then a digit *)
+Definition ts_frac_unsigned (s : bytes) : Prop := nth 18 s 0 <> gt_PLUS /\ nth 18 s 0 <> MINUS.
+
+Lemma bind_ok_inv : forall (A C : Type) (r : res A) (k : A -> res C) b, bind r k = Ok b ->
+  exists a, r = Ok a /\ k a = Ok b.
+Proof. intros A C r k b H. destruct r; try discriminate. eauto. Qed.
+
+Lemma timestamp_read_sound : forall s t p, timestamp_read s = Ok (t, p) -> ts_grammarb p s = true.
+Proof.
+  intros s t p H. unfold timestamp_read in H.
+  unfold utc_timestamp_millis_format, utc_timestamp_seconds_format,
+    utc_timestamp_micros_format, utc_timestamp_nanos_format in H.
+  destruct (Nat.ltb 17 (length s) && negb (nth 17 s 0 =? gt_DOT)) eqn:Echk; [discriminate|].
+  destruct (Nat.ltb 18 (length s) && negb (is_digit (nth 18 s 0))) eqn:E18; [discriminate|].
+  assert (Hsign : forall k, length s = (18 + S k)%nat -> nth 18 s 0 <> gt_PLUS /\ nth 18 s 0 <> MINUS).
+  { intros k Hk. rewrite Hk in E18. cbn [Nat.add Nat.ltb Nat.leb andb] in E18.
+    apply negb_false_iff in E18. apply digit_not_sign. exact E18. }
+  destruct (Nat.eqb (length s) 17) eqn:E17.
+  { apply Nat.eqb_eq in E17. apply bind_ok_inv in H as (t' & Hp & Hk). injection Hk as <- <-.
+    eapply gt_parse_seconds_sound; eassumption. }
+  assert (Hdot : forall k, length s = (18 + k)%nat -> nth 17 s 0 = gt_DOT).
+  { intros k Hk. rewrite Hk in Echk. cbn [Nat.add Nat.ltb Nat.leb andb] in Echk.
+    apply negb_false_iff in Echk. lia. }
+  destruct (Nat.eqb (length s) 21) eqn:E21.
+  { apply Nat.eqb_eq in E21. apply bind_ok_inv in H as (t' & Hp & Hk). injection Hk as <- <-.
+    destruct (Hsign 2%nat E21) as [Hplus Hminus].
+    apply (gt_parse_frac_sound 0 3 s t' eq_refl ltac:(lia) Hp E21 (Hdot 3%nat E21) Hplus Hminus). }
+  destruct (Nat.eqb (length s) 24) eqn:E24.
+  { apply Nat.eqb_eq in E24. apply bind_ok_inv in H as (t' & Hp & Hk). injection Hk as <- <-.
+    destruct (Hsign 5%nat E24) as [Hplus Hminus].
+    apply (gt_parse_frac_sound 2 6 s t' eq_refl ltac:(lia) Hp E24 (Hdot 6%nat E24) Hplus Hminus). }
+  destruct (Nat.eqb (length s) 27) eqn:E27; [|discriminate].
+  apply Nat.eqb_eq in E27. apply bind_ok_inv in H as (t' & Hp & Hk). injection Hk as <- <-.
+  destruct (Hsign 8%nat E27) as [Hplus Hminus].
+  apply (gt_parse_frac_sound 3 9 s t' eq_refl ltac:(lia) Hp E27 (Hdot 9%nat E27) Hplus Hminus).
+Qed.
+
+(* C14 timestamp, read side, for every byte string:
+   accepted as (t, p)  <=>  text of the grammar at precision p, and t the instant it denotes *)
+Lemma timestamp_read_iff : forall s t p,
+  timestamp_read s = Ok (t, p) <-> ts_grammarb p s = true /\ t = ts_value p s.
+Proof.
+  intros s t p. split.
+  - intros H. pose proof (timestamp_read_sound s t p H) as Hg. split; [exact Hg|].
+    rewrite (timestamp_read_grammar p s Hg) in H. injection H as H. symmetry. exact H.
+  - intros [Hg ->]. apply timestamp_read_grammar. exact Hg.
+Qed.
+
+(* ================= E. writing, and the two round trips ================= *)
+
+Lemma explicit2 : forall l : bytes, length l = 2%nat -> exists a b, l = [a; b].
+Proof. intros [|a [|b [|c r]]] H; try discriminate. eauto. Qed.
+Lemma explicit4 : forall l : bytes, length l = 4%nat -> exists a b c d, l = [a; b; c; d].
+Proof. intros [|a [|b [|c [|d [|e r]]]]] H; try discriminate. eauto 6. Qed.
+
+Lemma gt_append_int_nonneg : forall x w, 0 <= x -> gt_append_int x w = pad_zeros w (itoa x).
+Proof. intros x w H. unfold gt_append_int. replace (x <? 0) with false by lia. reflexivity. Qed.
+
+(* the text Format produces for civil fields and a tail *)
+Lemma gt_format_seconds_text : forall t,
+  gt_format gt_layout_seconds t =
+  let sec := fst t in
+  let '(y, m, d) := gt_civil_from_days (sec / 86400) in
+  let rem := sec mod 86400 in
+  gt_append_int y 4 ++ gt_append_int m 2 ++ gt_append_int d 2 ++ [MINUS] ++ gt_append_int (rem / 3600) 2
+  ++ [gt_COLON] ++ gt_append_int (rem mod 3600 / 60) 2 ++ [gt_COLON] ++ gt_append_int (rem mod 60) 2.
+Proof.
+  intros [sec ns]. unfold gt_format, gt_layout_seconds. cbn [fst].
+  destruct (gt_civil_from_days (sec / 86400)) as [[y m] d].
+  cbn [flat_map fst snd gt_format_std app]. rewrite !app_nil_r. reflexivity.
+Qed.
+
+Lemma gt_format_frac_text : forall n t,
+  gt_format (gt_layout_frac n) t = gt_format gt_layout_seconds t ++ gt_append_nano (snd t) n.
+Proof.
+  intros n [sec ns]. unfold gt_format, gt_layout_frac. cbn [snd].
+  destruct (gt_civil_from_days (sec / 86400)) as [[y m] d].
+  rewrite flat_map_app. cbn [flat_map fst snd gt_format_std app]. rewrite !app_nil_r. reflexivity.
+Qed.
+
+Ltac Zify.zify_post_hook ::= Z.div_mod_to_equations.
+
+Lemma time_of_day_split : forall D hh mi ss, 0 <= hh < 24 -> 0 <= mi < 60 -> 0 <= ss < 60 ->
+  let sec := D * 86400 + hh * 3600 + mi * 60 + ss in
+  sec / 86400 = D /\ (sec mod 86400) / 3600 = hh /\ (sec mod 86400) mod 3600 / 60 = mi /\ (sec mod 86400) mod 60 = ss.
+Proof. intros D hh mi ss Hh Hm Hs sec. subst sec. lia. Qed.
+
+Lemma time_of_day_join : forall sec,
+  let rem := sec mod 86400 in
+  0 <= rem / 3600 < 24 /\ 0 <= rem mod 3600 / 60 < 60 /\ 0 <= rem mod 60 < 60
+  /\ sec = sec / 86400 * 86400 + rem / 3600 * 3600 + rem mod 3600 / 60 * 60 + rem mod 60.
+Proof. intros sec rem. subst rem. lia. Qed.
+
+Lemma pow10_pos (k : Z) : 0 <= k -> 0 < 10 ^ k.
+Proof. intros H. apply Z.pow_pos_nonneg; lia. Qed.
+
+Ltac Zify.zify_post_hook ::= idtac.
+
+(* the first n of the nine nanosecond digits *)
+Lemma firstn_digits_value : forall L n, all_digits L = true -> (n <= length L)%nat ->
+  dec_value (firstn n L) 0 * 10 ^ Z.of_nat (length L - n) = dec_value L 0 - dec_value L 0 mod 10 ^ Z.of_nat (length L - n)
+  /\ all_digits (firstn n L) = true.
+Proof.
+  intros L n Hd Hn.
+  pose proof (firstn_skipn n L) as Hsplit.
+  assert (Hd2 : all_digits (firstn n L) = true /\ all_digits (skipn n L) = true).
+  { rewrite <- Hsplit in Hd. rewrite all_digits_app in Hd. apply andb_true_iff in Hd. exact Hd. }
+  destruct Hd2 as [Hd1 Hd2]. split; [|exact Hd1].
+  assert (Hv : dec_value L 0 = dec_value (firstn n L) 0 * 10 ^ Z.of_nat (length L - n) + dec_value (skipn n L) 0).
+  { rewrite <- Hsplit at 1. rewrite dec_value_app, dec_value_shift, skipn_length. reflexivity. }
+  pose proof (dec_value_bounds (skipn n L) 0 Hd2 ltac:(lia)) as Hb. rewrite skipn_length in Hb.
+  set (P := 10 ^ Z.of_nat (length L - n)) in *.
+  assert (HP : 0 < P) by (apply pow10_pos; lia).
+  assert (Hmod : dec_value L 0 mod P = dec_value (skipn n L) 0).
+  { symmetry. apply (Z.mod_unique _ _ (dec_value (firstn n L) 0)); [left; lia | lia]. }
+  rewrite Hmod. lia.
+Qed.
+
+Lemma ts_frac_len_range : forall p n, ts_frac_len p = Some n -> (n <= 9)%nat.
+Proof. intros p n H. destruct (ts_frac_len_cases p n H) as [[_ ->] | [[_ ->] | [[_ ->] | [_ ->]]]]; lia. Qed.
+
+(* the written text of an instant of the years 0000..9999 is of the grammar and denotes the truncated instant *)
+Lemma gt_format_grammar : forall p n t, ts_frac_len p = Some n -> ts_in_rangeb t = true ->
+  let text := match n with O => gt_format gt_layout_seconds t | _ => gt_format (gt_layout_frac n) t end in
+  ts_grammarb p text = true /\ ts_value p text = ts_trunc p t.
+Proof.
+  intros p n [sec ns] Hp Hr.
+  unfold ts_in_rangeb, TS_MIN_SEC, TS_MAX_SEC in Hr. cbn [fst snd] in Hr.
+  apply andb_true_iff in Hr as [Hr Hns2]. apply andb_true_iff in Hr as [Hr Hns1]. apply andb_true_iff in Hr as [Hs1 Hs2].
+  pose proof (ts_frac_len_range p n Hp) as Hn9.
+  (* the civil fields *)
+  pose proof (gt_civil_from_days_spec (sec / 86400)) as Hcivil.
+  assert (Hdays : GT_MIN_DAY <= sec / 86400 < GT_MAX_DAY).
+  { unfold GT_MIN_DAY, GT_MAX_DAY. split.
+    - apply Z.div_le_lower_bound; lia.
+    - apply Z.div_lt_upper_bound; lia. }
+  pose proof (gt_civil_from_days_year_range _ Hdays) as Hyear.
+  destruct (time_of_day_join sec) as (Hhh & Hmi & Hss & Hsec).
+  cbv zeta.
+  assert (Htext : exists tail, (match n with O => gt_format gt_layout_seconds (sec, ns) | _ => gt_format (gt_layout_frac n) (sec, ns) end)
+                  = gt_format gt_layout_seconds (sec, ns) ++ tail
+                  /\ match n with O => tail = [] | _ => tail = gt_append_nano ns n end).
+  { destruct n; [exists []; rewrite app_nil_r; auto|]. eexists. rewrite gt_format_frac_text. cbn [snd]. auto. }
+  destruct Htext as (tail & -> & Htail).
+  rewrite gt_format_seconds_text. cbn [fst]. cbv zeta.
+  destruct (gt_civil_from_days (sec / 86400)) as [[y m] d]. cbn [fst] in Hyear.
+  destruct Hcivil as [[Hm Hd] Hdfc].
+  pose proof (gt_days_in_le_31 m y) as H31.
+  set (rem := sec mod 86400) in *.
+  rewrite !gt_append_int_nonneg by lia.
+  destruct (pad_zeros_itoa_field y 4 ltac:(change (10 ^ Z.of_nat 4) with 10000; lia) ltac:(lia)) as (Ly & Dy & Vy).
+  destruct (pad_zeros_itoa_field m 2 ltac:(change (10 ^ Z.of_nat 2) with 100; lia) ltac:(lia)) as (Lm & Dm & Vm).
+  destruct (pad_zeros_itoa_field d 2 ltac:(change (10 ^ Z.of_nat 2) with 100; lia) ltac:(lia)) as (Ld & Dd & Vd).
+  destruct (pad_zeros_itoa_field (rem / 3600) 2 ltac:(change (10 ^ Z.of_nat 2) with 100; lia) ltac:(lia)) as (Lh & Dh & Vh).
+  destruct (pad_zeros_itoa_field (rem mod 3600 / 60) 2 ltac:(change (10 ^ Z.of_nat 2) with 100; lia) ltac:(lia)) as (Lmi & Dmi & Vmi).
+  destruct (pad_zeros_itoa_field (rem mod 60) 2 ltac:(change (10 ^ Z.of_nat 2) with 100; lia) ltac:(lia)) as (Ls & Ds & Vs).
+  destruct (explicit4 _ Ly) as (y0 & y1 & y2 & y3 & Ey). destruct (explicit2 _ Lm) as (m0 & m1 & Em).
+  destruct (explicit2 _ Ld) as (d0 & d1 & Ed). destruct (explicit2 _ Lh) as (h0 & h1 & Eh).
+  destruct (explicit2 _ Lmi) as (mi0 & mi1 & Emi). destruct (explicit2 _ Ls) as (s0 & s1 & Es).
+  rewrite Ey, Em, Ed, Eh, Emi, Es in *.
+  change (([y0; y1; y2; y3] ++ [m0; m1] ++ [d0; d1] ++ [MINUS] ++ [h0; h1] ++ [gt_COLON] ++ [mi0; mi1] ++ [gt_COLON] ++ [s0; s1]) ++ tail)
+    with (ts_base y0 y1 y2 y3 m0 m1 d0 d1 h0 h1 mi0 mi1 s0 s1 tail).
+  assert (Hdig : ts_base_digits y0 y1 y2 y3 m0 m1 d0 d1 h0 h1 mi0 mi1 s0 s1 = true).
+  { unfold ts_base_digits.
+    change [y0; y1; y2; y3; m0; m1; d0; d1; h0; h1; mi0; mi1; s0; s1]
+      with ([y0; y1; y2; y3] ++ [m0; m1] ++ [d0; d1] ++ [h0; h1] ++ [mi0; mi1] ++ [s0; s1]).
+    rewrite !all_digits_app, Dy, Dm, Dd, Dh, Dmi, Ds. reflexivity. }
+  (* the fraction *)
+  assert (Hfrac : match n with
+                  | O => tail = []
+                  | _ => exists F, tail = gt_DOT :: F /\ all_digits F = true /\ length F = n
+                  end /\ dec_value (skipn 1 tail) 0 * 10 ^ (9 - Z.of_nat n) = ns - ns mod 10 ^ (9 - Z.of_nat n)).
+  { destruct n as [|n'].
+    - subst tail. split; [reflexivity|]. cbn [skipn dec_value]. change (9 - Z.of_nat 0) with 9.
+      rewrite Z.mod_small by lia. lia.
+    - subst tail. unfold gt_append_nano. rewrite gt_append_int_nonneg by lia.
+      destruct (pad_zeros_itoa_field ns 9 ltac:(change (10 ^ Z.of_nat 9) with 1000000000; lia) ltac:(lia)) as (L9 & D9 & V9).
+      destruct (firstn_digits_value _ (S n') D9 ltac:(lia)) as [Hfv Hfd].
+      rewrite L9, V9 in Hfv.
+      replace (Z.of_nat (9 - S n')) with (9 - Z.of_nat (S n')) in Hfv by lia.
+      split.
+      + eexists. split; [reflexivity|]. split; [exact Hfd|]. rewrite firstn_length. lia.
+      + cbn [skipn]. exact Hfv. }
+  destruct Hfrac as [Hshape Hfv].
+  destruct (ts_num_base y0 y1 y2 y3 m0 m1 d0 d1 h0 h1 mi0 mi1 s0 s1 tail) as (E1 & E2 & E3 & E4 & E5 & E6).
+  split.
+  - unfold ts_grammarb. rewrite Hp.
+    rewrite (ts_shape_of_base n _ _ _ _ _ _ _ _ _ _ _ _ _ _ tail Hdig Hshape). cbn [andb].
+    rewrite E1, E2, E3, E4, E5, E6, Vy, Vm, Vd, Vh, Vmi, Vs.
+    unfold ts_date_ok.
+    replace (1 <=? m) with true by lia. replace (m <=? 12) with true by lia.
+    replace (1 <=? d) with true by lia. replace (d <=? gt_days_in m y) with true by lia.
+    replace (rem / 3600 <? 24) with true by lia. replace (rem mod 3600 / 60 <? 60) with true by lia.
+    replace (rem mod 60 <? 60) with true by lia. reflexivity.
+  - unfold ts_value, ts_trunc. rewrite Hp. cbn [fst snd].
+    rewrite E1, E2, E3, E4, E5, E6, Vy, Vm, Vd, Vh, Vmi, Vs.
+    f_equal.
+    + unfold gt_unix_of_civil. rewrite Hdfc. lia.
+    + replace (skipn 18 (ts_base y0 y1 y2 y3 m0 m1 d0 d1 h0 h1 mi0 mi1 s0 s1 tail)) with (skipn 1 tail) by reflexivity.
+      exact Hfv.
+Qed.
+
+(* precision actually written / read back: an undefined precision is written as millis *)
+Definition ts_norm_prec (p : Z) : Z := match ts_frac_len p with Some _ => p | None => 0 end.
+
+Lemma timestamp_write_layout : forall t p,
+  timestamp_write t p =
+  match ts_frac_len (ts_norm_prec p) with
+  | Some O => gt_format gt_layout_seconds t
+  | Some n => gt_format (gt_layout_frac n) t
+  | None => []
+  end.
+Proof.
+  intros t p. unfold timestamp_write, ts_norm_prec, ts_frac_len, TS_SECONDS, TS_MICROS, TS_NANOS,
+    utc_timestamp_seconds_format, utc_timestamp_micros_format, utc_timestamp_nanos_format, utc_timestamp_millis_format.
+  destruct (p =? 0) eqn:E0; [replace p with 0 by lia; reflexivity|].
+  destruct (p =? 1) eqn:E1; [replace p with 1 by lia; reflexivity|].
+  destruct (p =? 2) eqn:E2; [replace p with 2 by lia; reflexivity|].
+  destruct (p =? 3) eqn:E3; [replace p with 3 by lia; reflexivity|].
+  reflexivity.
+Qed.
+
+Lemma ts_norm_prec_len : forall p, exists n, ts_frac_len (ts_norm_prec p) = Some n.
+Proof.
+  intros p. unfold ts_norm_prec. destruct (ts_frac_len p) as [n|] eqn:E; [exists n; exact E|].
+  exists 3%nat. reflexivity.
+Qed.
+
+(* C14 timestamp: write then read, for every instant of the years 0000..9999 and every precision value *)
+Lemma timestamp_write_read : forall t p, ts_in_rangeb t = true ->
+  timestamp_read (timestamp_write t p) = Ok (ts_trunc (ts_norm_prec p) t, ts_norm_prec p).
+Proof.
+  intros t p Hr. destruct (ts_norm_prec_len p) as [n Hn].
+  rewrite timestamp_write_layout, Hn.
+  destruct (gt_format_grammar (ts_norm_prec p) n t Hn Hr) as [Hg Hv].
+  assert (E : match n with O => gt_format gt_layout_seconds t | S _ => gt_format (gt_layout_frac n) t end
+              = match n with O => gt_format gt_layout_seconds t | _ => gt_format (gt_layout_frac n) t end)
+    by (destruct n; reflexivity).
+  rewrite (timestamp_read_grammar _ _ Hg). rewrite Hv. reflexivity.
+Qed.
+
+Lemma timestamp_write_grammar : forall t p, ts_in_rangeb t = true ->
+  ts_grammarb (ts_norm_prec p) (timestamp_write t p) = true.
+Proof.
+  intros t p Hr. destruct (ts_norm_prec_len p) as [n Hn].
+  rewrite timestamp_write_layout, Hn.
+  destruct (gt_format_grammar (ts_norm_prec p) n t Hn Hr) as [Hg _]. destruct n; exact Hg.
+Qed.
+
+Lemma ts_norm_prec_id : forall p n, ts_frac_len p = Some n -> ts_norm_prec p = p.
+Proof. intros p n H. unfold ts_norm_prec. rewrite H. reflexivity. Qed.
+
+Lemma field_unique2 : forall a b, is_digit a = true -> is_digit b = true ->
+  gt_append_int (dec_value [a; b] 0) 2 = [a; b].
+Proof.
+  intros a b Ha Hb. pose proof (two_digit_nonneg a b Ha Hb).
+  rewrite gt_append_int_nonneg by lia.
+  apply (pad_zeros_itoa_unique [a; b]); [cbn [all_digits forallb]; rewrite Ha, Hb; reflexivity | discriminate].
+Qed.
+
+Lemma field_unique4 : forall a b c d, all_digits [a; b; c; d] = true ->
+  gt_append_int (dec_value [a; b; c; d] 0) 4 = [a; b; c; d].
+Proof.
+  intros a b c d H. pose proof (dec_value_nonneg _ H).
+  rewrite gt_append_int_nonneg by lia.
+  apply (pad_zeros_itoa_unique [a; b; c; d]); [exact H | discriminate].
+Qed.
+
+Lemma nano_field_unique : forall F n, all_digits F = true -> length F = n -> (1 <= n <= 9)%nat ->
+  gt_append_nano (dec_value F 0 * 10 ^ (9 - Z.of_nat n)) n = gt_DOT :: F.
+Proof.
+  intros F n HF Hl Hn. unfold gt_append_nano. f_equal.
+  pose proof (dec_value_nonneg F HF) as H0.
+  assert (HP : 0 < 10 ^ (9 - Z.of_nat n)) by (apply pow10_pos; lia).
+  rewrite gt_append_int_nonneg by nia.
+  set (L := F ++ repeat CH0 (9 - n)).
+  assert (HL : all_digits L = true) by (subst L; rewrite all_digits_app, HF, all_digits_repeat0; reflexivity).
+  assert (HlL : length L = 9%nat) by (subst L; rewrite app_length, repeat_length; lia).
+  assert (HvL : dec_value L 0 = dec_value F 0 * 10 ^ (9 - Z.of_nat n)).
+  { subst L. rewrite dec_value_app, dec_value_repeat0. f_equal. f_equal. lia. }
+  rewrite <- HvL. rewrite <- HlL at 1.
+  rewrite (pad_zeros_itoa_unique L HL ltac:(destruct L; [cbn in HlL; lia | discriminate])).
+  subst L. rewrite firstn_app. rewrite Hl, Nat.sub_diag. cbn [firstn]. rewrite app_nil_r.
+  rewrite <- Hl. apply firstn_all.
+Qed.
+
+(* C14 timestamp: read then write.  A text of the grammar is reproduced by writing the instant it denotes *)
+Lemma timestamp_read_write : forall p s, ts_grammarb p s = true -> timestamp_write (ts_value p s) p = s.
+Proof.
+  intros p s H. pose proof H as Hg. unfold ts_grammarb in H.
+  destruct (ts_frac_len p) as [n|] eqn:Hp; [|discriminate].
+  apply andb_true_iff in H as [Hs Hd].
+  pose proof (ts_frac_len_range p n Hp) as Hn9.
+  destruct (ts_shape_base n s Hs)
+    as (y0 & y1 & y2 & y3 & m0 & m1 & d0 & d1 & h0 & h1 & mi0 & mi1 & s0 & s1 & tail & -> & Hdig & Htail).
+  destruct (ts_num_base y0 y1 y2 y3 m0 m1 d0 d1 h0 h1 mi0 mi1 s0 s1 tail) as (E1 & E2 & E3 & E4 & E5 & E6).
+  rewrite timestamp_write_layout, (ts_norm_prec_id p n Hp), Hp.
+  unfold ts_value. rewrite Hp. rewrite E1, E2, E3, E4, E5, E6 in *.
+  pose proof Hdig as Hdig2.
+  apply ts_base_digits_split in Hdig2 as (Hy & Hm0 & Hm1 & Hd0 & Hd1 & Hh0 & Hh1 & Hmi0 & Hmi1 & Hs0 & Hs1).
+  set (y := dec_value [y0; y1; y2; y3] 0) in *. set (mo := dec_value [m0; m1] 0) in *.
+  set (d := dec_value [d0; d1] 0) in *. set (hh := dec_value [h0; h1] 0) in *.
+  set (mi := dec_value [mi0; mi1] 0) in *. set (ss := dec_value [s0; s1] 0) in *.
+  pose proof (two_digit_nonneg h0 h1 Hh0 Hh1) as Bh. pose proof (two_digit_nonneg mi0 mi1 Hmi0 Hmi1) as Bmi.
+  pose proof (two_digit_nonneg s0 s1 Hs0 Hs1) as Bs.
+  unfold ts_date_ok in Hd.
+  repeat (apply andb_true_iff in Hd as [Hd ?]).
+  assert (Hvalid : gt_valid_date y mo d) by (unfold gt_valid_date; lia).
+  destruct (time_of_day_split (gt_days_from_civil y mo d) hh mi ss ltac:(fold hh; lia) ltac:(fold mi; lia) ltac:(fold ss; lia))
+    as (Tq & Th & Tm & Ts).
+  (* the seconds part *)
+  assert (Hsec : forall ns, gt_format gt_layout_seconds (gt_unix_of_civil y mo d hh mi ss, ns)
+                 = ts_base y0 y1 y2 y3 m0 m1 d0 d1 h0 h1 mi0 mi1 s0 s1 []).
+  { intros ns. rewrite gt_format_seconds_text. cbn [fst]. cbv zeta. unfold gt_unix_of_civil.
+    rewrite Tq, (gt_civil_from_days_inv y mo d Hvalid), Th, Tm, Ts.
+    subst y mo d hh mi ss.
+    rewrite (field_unique4 _ _ _ _ Hy), (field_unique2 _ _ Hm0 Hm1), (field_unique2 _ _ Hd0 Hd1),
+      (field_unique2 _ _ Hh0 Hh1), (field_unique2 _ _ Hmi0 Hmi1), (field_unique2 _ _ Hs0 Hs1).
+    reflexivity. }
+  destruct n as [|n'].
+  - subst tail. apply Hsec.
+  - destruct Htail as (F & -> & HF & HlF).
+    rewrite gt_format_frac_text, Hsec. cbn [snd].
+    replace (skipn 18 (ts_base y0 y1 y2 y3 m0 m1 d0 d1 h0 h1 mi0 mi1 s0 s1 (gt_DOT :: F))) with F by reflexivity.
+    rewrite (nano_field_unique F (S n') HF HlF ltac:(lia)). reflexivity.
+Qed.
+
+(* a non-vacuity instance used by Props/C14.v *)
+Definition tsp_example_text : bytes :=   (* "20040229-23:59:59.123456" *)
+  [50; 48; 48; 52; 48; 50; 50; 57; 45; 50; 51; 58; 53; 57; 58; 53; 57; 46; 49; 50; 51; 52; 53; 54].
+Lemma tsp_example_grammar : ts_grammarb 2 tsp_example_text = true
+  /\ ts_value 2 tsp_example_text = (1078099199, 123456000).
+Proof. split; vm_compute; reflexivity. Qed.
